@@ -152,6 +152,35 @@ def w_states(items):
                         p.add_attribute(FOREIGN_ATTR if slot == "~foreignAttr" else slot, UNLISTED_VAL if v == "~unlisted" else v)
                 parents.append(p)
                 exps.append(collections.Counter((cc, FOREIGN_ATTR if s == "~foreignAttr" else s) for cc, s in a["errs"]))
+            # ONE rule object (rule.get_rule / rule.Rule hand them out) validating all these nodes in turn, collecting and
+            # fail-fast alternating: what it says about a node must not depend on the nodes it has seen
+            from metapype.eml import rule as _rule
+            from metapype.eml.exceptions import MetapypeRuleError as _MRE
+            robj = _rule.Rule(unit)
+            for k, (p, exp) in enumerate(zip(parents, exps)):
+                n += 1
+                if k % 2 == 0:
+                    errs = []
+                    try:
+                        robj._validate_attributes(p, errs) if False else robj.validate_rule(p, errs)
+                    except Exception as e:  # noqa: BLE001
+                        out.append((f"reused-rule-object:collecting-mode-raised:{type(e).__name__}", repr(e), {"kind": "reused-rule", "unit": unit}))
+                        continue
+                    got = collections.Counter((e[0].name, e[3] if len(e) > 3 else None) for e in errs if e[0].name.startswith("ATTRIBUTE"))
+                    if got != exp:
+                        out.append(("reused-rule-object:collecting-errors-differ", f"{unit} attrs {dict(p.attributes)} as node {k + 1} validated by one Rule object: expected {sorted(exp.elements())} got {sorted(got.elements())}",
+                                    {"kind": "reused-rule", "unit": unit, "attributes": dict(p.attributes), "position": k + 1, "expected": sorted(exp.elements())}))
+                else:
+                    ff = None
+                    try:
+                        robj.validate_rule(p)
+                    except Exception as e:  # noqa: BLE001
+                        ff = e
+                    if ff is not None and not isinstance(ff, _MRE):
+                        out.append((f"reused-rule-object:failfast-non-rule-error:{type(ff).__name__}", repr(ff), {"kind": "reused-rule", "unit": unit}))
+                    elif ff is None and exp:
+                        out.append(("reused-rule-object:failfast-accepted", f"{unit} attrs {dict(p.attributes)} as node {k + 1} validated by one Rule object: expected errors {sorted(exp.elements())}, nothing raised",
+                                    {"kind": "reused-rule", "unit": unit, "attributes": dict(p.attributes), "position": k + 1, "expected": sorted(exp.elements())}))
             raised, by = c01.forest_errors(parents)
             Node.store.clear()
             if raised is not None:
